@@ -98,16 +98,28 @@ def mutation_label(a) -> str:
     return f"{a.kind}:{t}"
 
 
+N_ROUNDS = 10  # K: mutation rounds per module in the universe (= number of mutation kinds: every rotation offset)
+
+
+def quick_rounds(seed):
+    """The two rounds of the universe a quick run executes: VERIF_SEED only SELECTS, it never parameterises a case."""
+    r1 = seed % N_ROUNDS
+    r2 = (r1 + 1 + (seed // N_ROUNDS) % (N_ROUNDS - 1)) % N_ROUNDS
+    return sorted({r1, r2})
+
+
 def plan(tier, seed):
-    """32 corpus shards in both tiers (the per-shard instance numbering drives the rotation of mutation kinds, so the
-    thorough tier - 10 rounds = every kind from every rotation offset - visits a superset of the quick tier's
-    (instance, kind) pairs). The seed drives the VALUES: which pool attribute is added/changed, which optional
-    target is picked first, which operands are duplicated."""
+    """The universe of cases is FIXED and seed-independent: for every verified corpus module and every round r in
+    range(N_ROUNDS) one mutant state, in which each op instance receives the mutation kind given by the rotation
+    (instance number of that op name in the shard + r) and the parameters (which pool attribute, which optional
+    target, which operand) given by a PRNG seeded with (corpus chunk, r) only. 32 shards in both tiers (the instance
+    numbering is per shard). thorough = the whole universe; quick = the base states plus the two rounds selected by
+    VERIF_SEED, i.e. a subset of the universe, so a quick run cannot reach a mechanism key the thorough run does not."""
     import os
-    quick = tier == "quick"
     n = 32
     scale = float(os.environ.get("XV_SCALE", "1"))  # self-tests with mutants only: a fraction of the corpus
-    return [{"kind": "corpus", "i": i, "n": n, "seed": seed, "rounds": 2 if quick else 10, "stride": max(1, round(1 / scale))}
+    rounds = quick_rounds(seed) if tier == "quick" else list(range(N_ROUNDS))
+    return [{"kind": "corpus", "i": i, "n": n, "seed": seed, "rounds": rounds, "stride": max(1, round(1 / scale))}
             for i in range(n)]
 
 
@@ -352,12 +364,13 @@ def work(job):
             res["samples"].append({"corpus_chunk": case_id, "custom_format_ops": custom_names(m)[:12]})
         # --- mutation rounds: every op instance receives ONE mutation per round; the kind rotates with the instance
         #     number of that op name and the round, so that all (op, kind, target) combinations get visited
-        for rnd in range(job["rounds"]):
+        local_count: dict[str, int] = {}
+        for rnd in job["rounds"]:
             state = f"mutant:r{rnd}"
             skip_eval = skip or (only_state is not None and only_state != state)
-            rng = random.Random(shash((job["seed"], case_id, rnd)))
+            rng = random.Random(shash(("C05-universe", case_id, rnd)))  # never the seed: the case is a function of (chunk, r)
             applied = []
-            local_count: dict[str, int] = {}
+            local_count = {}
             for op in list(m.walk()):
                 if not has_custom_format(op) or op.parent is None:
                     continue
@@ -376,9 +389,6 @@ def work(job):
                     if a is not None:
                         applied.append(a)
                         break
-            if rnd == job["rounds"] - 1:
-                for nme, k in local_count.items():
-                    inst_counter[nme] = inst_counter.get(nme, 0) + k
             if not applied:
                 continue
             if skip_eval:
@@ -413,6 +423,13 @@ def work(job):
             for a in reversed(applied):
                 if not getattr(a, "undone", False):
                     a.undo()
+        if not job["rounds"]:
+            for op in m.walk():
+                if has_custom_format(op) and op.parent is not None:
+                    local_count[op.name] = local_count.get(op.name, 0) + 1
+        # the instance numbering advances by the module's op counts, whatever rounds were executed
+        for nme, k in local_count.items():
+            inst_counter[nme] = inst_counter.get(nme, 0) + k
         if job["rounds"] and only_state is None and not skip:
             # the undo machinery must leave the module as it was (harness self-check: a bug here crashes the shard)
             from xv.c04_rt import canon_module
